@@ -25,7 +25,7 @@ def main(argv):
     seed = int(os.environ.get("VERIF_SEED", "0"))
     ctx = common.Ctx(pid, tier, seed)
     import shutil
-    shutil.rmtree(os.path.join(common.ROOT, "replays", pid), ignore_errors=True)     # replays of earlier runs
+    shutil.rmtree(os.path.join(common.OUT, "replays", pid), ignore_errors=True)     # replays of earlier runs
     ok, log = common.ensure_built()
     obl = common.coq_obligations(pid)
     forb = common.forbidden_scan()
